@@ -228,6 +228,9 @@ class Workdir(object):
         self.p = os.path.join(root, 'payload')
         self.tmp = os.path.join(root, 'gt-tmp')
         self.home = os.path.join(root, 'home')
+        if len(case['stderr']) % 2 == 1:
+            # the working directory lies under the home directory
+            self.home = root
         for d in (self.w, self.p, self.tmp, self.home):
             os.makedirs(d, exist_ok=True)
         self.env = {
